@@ -306,7 +306,7 @@ func (li *limbInterp) stmt(st ast.Stmt, s *limbState) []*limbState {
 			out = append(out, f)
 		}
 		return out
-		case *ast.SwitchStmt:
+	case *ast.SwitchStmt:
 		// "switch { case c1: ... case c2: ... default: ... }" is an if/else-if chain
 		if st.Init == nil && st.Tag == nil {
 			cur := s
